@@ -24,6 +24,7 @@ META = {
     "level_note": "Trusts json.dumps/json.loads round-tripping for JSON-like values and Python int arithmetic.",
 }
 META["technique"] += '; newline-mode audit of every output buffer construction (shared with C06.R2)'
+META["technique"] += '; decoded-use rule for tokens admitted as quoted strings by a `.type_` comparison; integer-exactness rule on the math filters'
 META["level_text"] += ' Also decided (R5): no output buffer is built with a newline mode that rewrites CR/CRLF.'
 
 DECODERS = {"parse_string_or_identifier", "parse_string_or_path", "parse_primitive", "parse_boolean_primitive"}
@@ -191,6 +192,56 @@ def run(prog: Program, res: Result) -> None:  # noqa: PLR0912, PLR0915
                 else:
                     res.ok("C20.R3", site, what, "unescape() applied" + (" after the \\' replacement" if "SINGLE" in ks else "") if uses else "delegated to a decoding helper")
     res.floor("C20.R3", "quoted-string parse sites", n_sites, 10)
+    # R3b: the same, for kinds admitted by a comparison on `.type_` (`tok.type_ in (WORD, SINGLE_QUOTE_STRING, …)`) instead of is_token_type()
+    n3b = 0
+    for mod in prog.modules.values():
+        if mod.relpath in ("liquid2/lexer.py", "liquid2/exceptions.py", "liquid2/token.py"):
+            continue
+        for fi in mod.functions.values():
+            admitted: dict[str, ast.AST] = {}
+            for c in ast.walk(fi.node):
+                if isinstance(c, ast.Compare) and isinstance(c.left, ast.Attribute) and c.left.attr == "type_" and isinstance(c.left.value, ast.Name) and any("_QUOTE_STRING" in norm(x, 400) for x in c.comparators):
+                    admitted[c.left.value.id] = c
+            for var, cmp_ in admitted.items():
+                n3b += 1
+                # the statements that run when the token was admitted: the body of `if tok.type_ in (…)`, or what follows `if tok.type_ not in (…): raise`
+                holder = next((a for a in mod.ancestors(cmp_) if isinstance(a, ast.If)), None)
+                if holder is None or not any(x is cmp_ for x in ast.walk(holder.test)):
+                    continue
+                admit_true = isinstance(cmp_.ops[0], (ast.In, ast.Eq))
+                if isinstance(holder.test, ast.UnaryOp) and isinstance(holder.test.op, ast.Not):
+                    admit_true = not admit_true
+                if admit_true:
+                    region3 = list(holder.body)
+                else:
+                    region3 = list(holder.orelse)
+                    if holder.body and isinstance(holder.body[-1], (ast.Return, ast.Raise, ast.Continue, ast.Break)):
+                        par = mod.parent(holder)
+                        for fld in ("body", "orelse", "finalbody"):
+                            b_ = getattr(par, fld, None)
+                            if isinstance(b_, list) and holder in b_:
+                                region3 += b_[b_.index(holder) + 1 :]
+                uses = [a for st_ in region3 for a in ast.walk(st_) if isinstance(a, ast.Attribute) and a.attr == "value" and isinstance(a.value, ast.Name) and a.value.id == var]
+                raw = []
+                for u in uses:
+                    ok = False
+                    for a in mod.ancestors(u):
+                        if isinstance(a, ast.Call) and (dotted(a.func) or "").split(".")[-1] == "unescape":
+                            ok = True
+                            break
+                        if isinstance(a, ast.Raise):
+                            ok = True  # an error message quoting the token
+                            break
+                        if a is fi.node:
+                            break
+                    if not ok:
+                        raw.append(u)
+                what = f"{fi.qualname}: {var}.value of a token admitted as a quoted string is decoded"
+                if raw:
+                    res.fail("C20.R3", file=mod.relpath, line=raw[0].lineno, qualname=fi.qualname, construct=f"{fi.qualname}: `{var}.value` of a possibly quoted token used undecoded", message=f"{fi.qualname} admits a quoted string token (`{norm(cmp_, 70)}`) and then uses `{norm(mod.parent(raw[0]), 60)}` - the raw text between the quotes, escapes and all: `\"a\\u0062\"` names something else than `ab`; the sibling sites go through parse_string_or_identifier / unescape()", what=what)
+                else:
+                    res.ok("C20.R3", f"{mod.relpath}:{cmp_.lineno} {fi.qualname}", what, "no undecoded use")
+    res.stats["type_compare_sites"] = n3b
     # quoted path segments: Path.__init__ decodes str segments; lexer replaces \' for single-quoted segments
     path_cls = prog.cls("liquid2.builtin.expressions.Path")
     pinit = path_cls.methods.get("__init__")
@@ -318,6 +369,10 @@ def run(prog: Program, res: Result) -> None:  # noqa: PLR0912, PLR0915
     from checks.shared import check_no_text_normalisation
 
     check_no_text_normalisation(prog, res, "C20.R8")
+    res.rule("C20.R9", "an integer literal keeps every digit through the arithmetic filters: where both operands are ints, plus / minus / times / modulo / divided_by return an integer operator applied to the operands themselves, never a value routed through float (53 bits) or Decimal (28 digits), so `{{ 12345678901234567890123456789012345 | plus: 0 | json }}` decodes to the number written (= C01.R17)")
+    from checks.shared import check_integer_exactness
+
+    check_integer_exactness(prog, res, "C20.R9")
     res.rule("C20.R7", "_parse_hex_digits accepts exactly the 22 hexadecimal digits and gives each its value: the chain of constant comparisons on the code unit, read as a table over all 128 ASCII code units, equals int(chr(c), 16) on 0-9 A-F a-f and rejects every other unit; the accumulated value is shifted by 4 bits per digit")
     ph = prog.fn_opt("liquid2/unescape.py", "_parse_hex_digits")
     if ph is None:
